@@ -51,9 +51,9 @@ func tapeCmd(args []string) {
 }
 
 type canonOut struct {
-	Tape  map[string][]uint32     `json:"tape"`
+	Tape  map[string][]uint32    `json:"tape"`
 	Spans map[string][]tape.Span `json:"spans"`
-	Sched string                  `json:"sched"`
+	Sched string                 `json:"sched"`
 }
 
 // runtape executes a replay file's tape once in this process (the caller set
